@@ -1,17 +1,17 @@
 package main
 
 import (
-	"net"
-	"time"
-	"net/http/httptest"
-	"net/http"
-	"syscall"
 	"bytes"
 	"context"
 	"fmt"
+	"net"
+	"net/http"
+	"net/http/httptest"
 	"os"
 	"path/filepath"
 	"strings"
+	"syscall"
+	"time"
 
 	api "github.com/polydawn/go-timeless-api"
 	"github.com/polydawn/go-timeless-api/rio"
